@@ -33,7 +33,7 @@ Variables (A P : V -> V).            (* the operator and the preconditioner, as 
 Variable x0_unscaled : bool.         (* defect flag cg_x0_unscaled: true = the pinned tree (x0 is not divided by ||b||) *)
 
 Definition vnorm (v : V) : T := osqrt o (vdot vo v v).
-Definition safe_den (den : T) : T := if oltb o (oabs o den) (osmall o) then osafe o else den.
+Definition safe_den (den : T) : T := if oltb o (oabs o den) (ozero o) then osafe o else den.
 Definition safe_div (num den : T) : T := odiv o num (safe_den den).
 Definition safe_vdiv (v : V) (den : T) : V := vdivs vo v (safe_den den).
 
